@@ -77,10 +77,13 @@ func verifExpectedBackoff(k int) time.Duration {
 }
 
 // C10 + C13(a,b,e): NewStore over declared names, cache contents of every kind, failing/recovering service, ending context.
-func verifHarnessC10NewStore() {
+func verifHarnessC10NewStoreNoCache()  { verifC10NewStore([]int{0}, param("names")) }
+func verifHarnessC10NewStoreDoc()      { verifC10NewStore([]int{3}, param("names")) }
+func verifHarnessC10NewStoreBadCache() { verifC10NewStore([]int{1, 2, 4}, 1) }
+
+func verifC10NewStore(kinds []int, n int) {
 	verifEnvReset()
 	verifStoreUnderTest = nil
-	n := param("names")
 	names := make([]string, n)
 	svc := map[string]*api.SecretValue{}
 	for i := range names {
@@ -96,7 +99,7 @@ func verifHarnessC10NewStore() {
 	// cache: none / unreadable / empty / a document (valid or not) / arbitrary bytes
 	var cache *verifCache
 	var doc map[string]*cachedSecret
-	kind := nondetChoice("cache.kind", 5)
+	kind := kinds[nondetChoice("cache.kind", len(kinds))]
 	switch kind {
 	case 1:
 		cache = &verifCache{readFails: true, mayFail: true}
@@ -120,7 +123,8 @@ func verifHarnessC10NewStore() {
 		cache = &verifCache{content: nondetSeq("cache.garbage"), mayFail: true}
 	}
 	ctx := &verifCtx{tag: "init", hasDeadline: nondetBool("ctx.hasDeadline"), deadlineNS: nondetMathI64("ctx.deadline"), cancelled: nondetBool("ctx.cancelled")}
-	cfg := StoreConfig{Client: client, Secrets: names, AllowLookup: nondetBool("allowLookup"), PollInterval: -1, Logf: verifLogf, TimeNow: verifTimeNow}
+	cfg := StoreConfig{Client: client, Secrets: append([]string(nil), names...), // NewStore sorts and compacts this slice in place
+		AllowLookup: nondetBool("allowLookup"), PollInterval: -1, Logf: verifLogf, TimeNow: verifTimeNow}
 	if cache != nil {
 		cfg.Cache = cache
 	}
@@ -170,6 +174,17 @@ func verifHarnessC10NewStore() {
 			}
 		}
 		if !fromCache {
+			fetched := false
+			for j := range client.names {
+				fetched = or(fetched, and(client.oks[j], client.names[j] == nm))
+			}
+			if kind == 4 {
+				// arbitrary cache bytes may happen to be a well-formed document; only a fetched value is checked
+				if !fetched {
+					continue
+				}
+			}
+			assert("uncached-value-was-fetched", fetched)
 			sv := svc[nm]
 			if sv == nil {
 				assert("value-really-served", false)
